@@ -344,6 +344,8 @@ impl RunConfig {
                         return shutdown_manager.add_listener(shutdown::Listener::Udp(endpoint));
                     }
 
+                    #[cfg(feature = "verif-hooks")]
+                    crate::verif::point("hx.listen", i64::from(address.port()));
                     socket
                         .listen(1024)
                         .expect("Failed to listen on bound address.");
